@@ -226,6 +226,23 @@ def aliasProgram (targets : List (Option Nat)) (use : Option Nat) : Program :=
     | none => []
   [fileOf (defs ++ useDef)]
 
+/-- the same alias graphs spread over modules: alias `i` is `T` of module `P::A<i>` (one file per module) and refers to its target
+    by the RELATIVE name `A<j>::T`, which every module resolves through its own enclosing scopes; decoy modules `P::A<i>::A<k>`
+    (`typealias T = int32`) for every `k` that alias `i` does not refer to make the same relative name mean something else when it
+    is looked up from the wrong module. The use site is in module `P::A<k>` and writes `T`. -/
+def aliasProgramModules (targets : List (Option Nat)) (use : Option Nat) : Program :=
+  let n := targets.length
+  let fileIn := fun (m : String) (defs : List Def) => ({ fileAttrs := [], module := some ⟨[], m⟩, defs := defs } : SFile)
+  let main := targets.zipIdx.map fun (t, i) =>
+    fileIn ("P::" ++ aliasName i)
+      ([Def.alias [] [] "T" (match t with | some j => .mk [] (.named (aliasName j ++ "::T")) false | none => .mk [] (.prim .int32) false)] ++
+       (if use == some i then [Def.struct [] [] false "U" [mkField "x" (.mk [] (.named "T") false)]] else []))
+  let decoys := targets.zipIdx.flatMap fun (t, i) =>
+    (List.range n).filterMap fun k =>
+      if k == i || t == some k then none
+      else some (fileIn ("P::" ++ aliasName i ++ "::" ++ aliasName k) [Def.alias [] [] "T" (.mk [] (.prim .int32) false)])
+  main ++ decoys
+
 def aliasS (p : Program) : String :=
   let e := e019s p
   let n := e033Count p
@@ -495,6 +512,13 @@ def gen (tier : Tier) (seed : Nat) (o : Out) : IO Unit := do
       for use in (none :: (List.range n).map some) do
         let p := aliasProgram ts use
         o.line (compileCase ("alias-" ++ toString n) "c05:alias" "-" (textOf p) (aliasS p))
+  -- the same graphs with one module per alias, relative names and decoy modules (≤ 3 aliases)
+  for n in [1:4] do
+    for code in [0:(n + 1) ^ n] do
+      let ts := aliasTargets n code
+      for use in (none :: (List.range n).map some) do
+        let p := aliasProgramModules ts use
+        o.line (compileCase ("alias-modules-" ++ toString n) "c05:alias" "-" (textOf p) (aliasS p))
   -- aliases whose underlying type is anonymous: every target function on ≤ 2 (thorough 3) aliases, every edge direct or
   -- through `Result<T, int32>` / `Sequence<Result<T, int32>>`. A loop through an anonymous type is not seen by the patcher
   -- (D-05c): those programs go to the known-finding family at the end of the stream
